@@ -107,7 +107,7 @@ def run(prog, check):
     san_flat = flatten(prog, san, accept=lambda callee: callee.key not in helper_keys)
     for f in family:
         check.saw(f)
-    lookups = {t for n in ast.walk(san_flat.node) if isinstance(n, ast.Assign) and isinstance(n.value, ast.Dict) for t in target_names(n.targets[0])}
+    lookups = {t for n in ast.walk(san_flat.node) if isinstance(n, ast.Assign) and isinstance(n.value, (ast.Dict, ast.DictComp)) for t in target_names(n.targets[0])}
     # names bound to a helper as a method value
     helper_aliases = {}
     for n in ast.walk(san_flat.node):
@@ -275,7 +275,9 @@ def run(prog, check):
              'every sector\'s equation block is rewritten' if all_sectors else 'not every sector block is rewritten', 'any placeholder in a sector equation')
     # the lookup maps each alias to the canonical name of its (sector, variable)
     okmap = any(isinstance(n, ast.Assign) and isinstance(n.targets[0], ast.Subscript) and unparse(n.targets[0].value) in lookups and
-                isinstance(n.value, ast.Call) and call_name(n.value) == 'GetVariableName' for n in ast.walk(san_flat.node))
+                isinstance(n.value, ast.Call) and call_name(n.value) == 'GetVariableName' for n in ast.walk(san_flat.node)) or \
+        any(isinstance(n, ast.Assign) and isinstance(n.value, ast.DictComp) and set(target_names(n.targets[0])) & lookups and
+            isinstance(n.value.value, ast.Call) and call_name(n.value.value) == 'GetVariableName' for n in ast.walk(san_flat.node))
     check.ob('C05.R1', '%s::lookup-maps-to-canonical-names' % san.key, okmap, san.where,
              'lookup[alias] = sector.GetVariableName(local name)' if okmap else 'the alias lookup is not built from GetVariableName', '')
     # the block-level replacement is token based and reaches blobs as well as simple terms
